@@ -7,6 +7,8 @@ CONSTANTS
   MaxPuts = 9
   MaxRestarts = 2
   LoseOpenOnRestart = FALSE
+  UseMemWhenOpen = TRUE
+  NamesFromAll = TRUE
 INVARIANTS NothingMoves
 CONSTRAINT Emit
 CHECK_DEADLOCK FALSE
